@@ -722,19 +722,147 @@ def run_case(line):
     return res
 
 
+
+# ---------------------------------------------------------------- Layer 2: real DDL
+def ddl_setup():
+    import vrt
+    std = vrt.std_schema()
+    return vrt, std
+
+
+def refs_of_object(S, F, i):
+    """(field name, target uuid) for every reference held by object i of FlatSchema F"""
+    c = so.ObjectMeta.get_schema_class(F._id_to_type[i])
+    d = DESC[CODE[c]]
+    data = F._id_to_data[i]
+    for r in d['refs']:
+        v = data[r['idx']]
+        if v is None:
+            continue
+        for t in ids_of_reduced(r['kind'], v):
+            yield r['name'], U(t)
+
+
+def mon_refint(S):
+    """every reference held by an object of the user schema resolves in the same schema"""
+    bad = []
+    for F in (S._top_schema, S._global_schema):
+        for i in F._id_to_type.keys():
+            for fn, t in refs_of_object(S, F, i):
+                if S.get_by_id(t, None) is None:
+                    c = F._id_to_type[i]
+                    bad.append(f'refint-dangling-{c}.{fn}')
+    return sorted(set(bad))[:4]
+
+
+def mon_chained_api(S):
+    """lookups through the ChainedSchema agree with the objects' own data"""
+    bad = []
+    top = S._top_schema
+    try:
+        for i, tn in top._id_to_type.items():
+            c = so.ObjectMeta.get_schema_class(tn)
+            o = S.get_by_id(i)
+            if type(o) is not c:
+                bad.append('ddl-api-get_by_id')
+            nm = top._id_to_data[i][DESC[CODE[c]]['nameidx']]
+            if o.get_name(S) != nm:
+                bad.append('ddl-api-get_name')
+            if DESC[CODE[c]]['qual'] and top._name_to_id.get(nm) == i:
+                g = S.get(nm, None)
+                if g is None or g.id != i:
+                    bad.append('ddl-api-get-by-name')
+            # referrers: whoever the chained schema reports must really refer to the object
+            for r in S.get_referrers(o):
+                F = top if r.id in top._id_to_type else (
+                    S._global_schema if r.id in S._global_schema._id_to_type else S._base_schema)
+                if r.id not in F._id_to_type or all(t != i for _, t in refs_of_object(S, F, r.id)):
+                    bad.append('ddl-api-get_referrers-stale')
+    except Exception as e:  # noqa
+        bad.append('ddl-api-raised-' + type(e).__name__)
+    return sorted(set(bad))
+
+
+def fingerprint(S):
+    import pickle
+    maps = tuple((F._id_to_data, F._id_to_type, F._name_to_id, F._shortname_to_id,
+                  F._globalname_to_id, F._refs_to) for F in (S._top_schema, S._global_schema))
+    return hashlib.md5(pickle.dumps(maps)).hexdigest()
+
+
+def run_ddl_case(line, vrt, std):
+    stmts = json.loads(line)
+    S = s_schema.ChainedSchema(std, s_schema.EMPTY_SCHEMA, s_schema.EMPTY_SCHEMA)
+    fails, out = [], []
+    snaps = [(S, fingerprint(S))]
+    base_attrs = attrs(std)
+    for n, st in enumerate(stmts):
+        before = attrs(S)
+        before_fp = snaps[-1][1]
+        before_ids = set(S._top_schema._id_to_type.keys()) | set(S._global_schema._id_to_type.keys())
+        before_names = {i: S._top_schema._id_to_data[i][2] for i in S._top_schema._id_to_type.keys()}
+        try:
+            S2 = vrt.run_ddl(S, st)
+            status = 'ok'
+        except Exception as e:  # noqa
+            S2 = None
+            status = type(e).__name__
+        if fingerprint(S) != before_fp or attrs(S) != before:
+            fails.append(('rejected-ddl-changed-schema' if S2 is None else 'frozen-previous-value-changed') + f'@{n}')
+        if S2 is not None:
+            S = S2
+            snaps.append((S, fingerprint(S)))
+            for F in (S._top_schema, S._global_schema):
+                for b in mon_index(F, set()):
+                    fails.append(f'{b}@{n}')
+            for b in mon_refint(S) + mon_chained_api(S):
+                fails.append(f'{b}@{n}')
+            after_ids = set(S._top_schema._id_to_type.keys()) | set(S._global_schema._id_to_type.keys())
+            for i in before_ids - after_ids:
+                if S.get_by_id(i, None) is not None:
+                    fails.append(f'dropped-still-by-id@{n}')
+                nm = before_names.get(i)
+                if isinstance(nm, sn.QualName):
+                    g = S.get(nm, None)
+                    if g is not None and g.id == i:
+                        fails.append(f'dropped-still-by-name@{n}')
+        out.append(status)
+    if attrs(std) != base_attrs:
+        fails.append('base-schema-changed')
+    for k, (Sk, fk) in enumerate(snaps):
+        if fingerprint(Sk) != fk:
+            fails.append(f'frozen-value-{k}-changed-later')
+    nobj = len(S._top_schema._id_to_type)
+    res = '|'.join(out) + f'#{nobj}'
+    seen = set()
+    for f in fails:
+        kind = f.split('@')[0]
+        if kind not in seen:
+            seen.add(kind)
+            res += ' !' + f
+    return res
+
 def main():
     if len(sys.argv) > 2 and sys.argv[2] == 'describe':
         json.dump(describe(), sys.stdout)
         return
     out = []
+    ddl = len(sys.argv) > 2 and sys.argv[2] == 'ddl'
+    if ddl:
+        vrt_, std_ = ddl_setup()
     for line in sys.stdin:
         line = line.rstrip('\n')
         if not line:
             continue
         try:
-            out.append(run_case(line))
+            out.append(run_ddl_case(line, vrt_, std_) if ddl else run_case(line))
         except Harness as e:
             out.append('HARNESS-ERROR ' + str(e))
+        except Exception as e:    # noqa: the observation itself failed (schema in a state the
+            # dump / monitors cannot read): reported as a failure of this case, not of the run
+            tb = traceback.extract_tb(e.__traceback__)
+            where = ';'.join(f'{os.path.basename(f.filename)}:{f.lineno}:{f.name}' for f in tb[-3:])
+            out.append(f'CRASH@0|{type(e).__name__} {str(e)[:120]} [{where}] !driver-crash@0'.replace('\n', ' '))
     sys.stdout.write('\n'.join(out) + '\n')
 
 
